@@ -435,6 +435,7 @@ func (vc *FuncVC) exec(in ssa.Instruction) {
 		return
 	}
 	vc.nInstr++
+	vc.curInstr = in
 	switch x := in.(type) {
 	case *ssa.Alloc:
 		vc.execAlloc(x)
@@ -1198,4 +1199,120 @@ func (vc *FuncVC) execReturn(x *ssa.Return) {
 		vc.oblige("post", "post."+clauseName(e, n), vc.g(), f, e.Src)
 	}
 	vc.checkFrame()
+}
+
+// ---------- fresh objects that have not escaped yet ----------
+
+// escapePoints lists the instructions at which the address held by an Alloc (or
+// an address derived from it) may become known to other code: passed to a call,
+// stored as a value, boxed, captured, returned, merged by a phi.
+func (vc *FuncVC) escapePoints(a *ssa.Alloc) []ssa.Instruction {
+	if ep, ok := vc.escapes[a]; ok {
+		return ep
+	}
+	var out []ssa.Instruction
+	seen := map[ssa.Value]bool{}
+	var walk func(v ssa.Value)
+	walk = func(v ssa.Value) {
+		if seen[v] {
+			return
+		}
+		seen[v] = true
+		refs := v.Referrers()
+		if refs == nil {
+			return
+		}
+		for _, r := range *refs {
+			switch u := r.(type) {
+			case *ssa.DebugRef:
+			case *ssa.FieldAddr:
+				walk(u)
+			case *ssa.IndexAddr:
+				if u.X == v {
+					walk(u)
+				} else {
+					out = append(out, r)
+				}
+			case *ssa.UnOp:
+				if u.Op != token.MUL {
+					out = append(out, r)
+				}
+			case *ssa.Store:
+				if u.Val == v {
+					out = append(out, r)
+				}
+			default:
+				out = append(out, r)
+			}
+		}
+	}
+	walk(a)
+	vc.escapes[a] = out
+	return out
+}
+
+// blockReaches reports whether control can flow from block a to block b through
+// at least one edge.
+func (vc *FuncVC) blockReaches(a, b *ssa.BasicBlock) bool {
+	if vc.breach == nil {
+		vc.breach = map[*ssa.BasicBlock]map[*ssa.BasicBlock]bool{}
+	}
+	m, ok := vc.breach[a]
+	if !ok {
+		m = map[*ssa.BasicBlock]bool{}
+		stack := append([]*ssa.BasicBlock{}, a.Succs...)
+		for len(stack) > 0 {
+			x := stack[len(stack)-1]
+			stack = stack[:len(stack)-1]
+			if m[x] {
+				continue
+			}
+			m[x] = true
+			stack = append(stack, x.Succs...)
+		}
+		vc.breach[a] = m
+	}
+	return m[b]
+}
+
+func (vc *FuncVC) mayPrecede(e, at ssa.Instruction) bool {
+	eb, ab := e.Block(), at.Block()
+	if vc.blockReaches(eb, ab) {
+		return true
+	}
+	if eb == ab {
+		return instrIndex(e) < instrIndex(at)
+	}
+	return false
+}
+
+// unescapedAllocs: heap objects allocated by this function whose address cannot
+// have reached any other code when instruction `at` executes.
+func (vc *FuncVC) unescapedAllocs(at ssa.Instruction) []*ssa.Alloc {
+	var out []*ssa.Alloc
+	for _, b := range vc.Fn.Blocks {
+		for _, in := range b.Instrs {
+			a, ok := in.(*ssa.Alloc)
+			if !ok || vc.localAlloc[a] {
+				continue
+			}
+			if _, done := vc.vals[a]; !done {
+				continue
+			}
+			if !vc.mayPrecede(a, at) {
+				continue
+			}
+			esc := false
+			for _, e := range vc.escapePoints(a) {
+				if e == at || vc.mayPrecede(e, at) {
+					esc = true
+					break
+				}
+			}
+			if !esc {
+				out = append(out, a)
+			}
+		}
+	}
+	return out
 }
